@@ -117,7 +117,7 @@ def race_phase(run, tier, wd):
         vlib.log("DRIFT: Run returned while %d scanner call(s) were still in flight (ScanPhase.tla joins the scan phase before returning); "
                  "a verdict needs the race detector's report on what the caller does next" % leaked)
         run.cov["model_binding"] = "drift"
-    lines = [dict({k: v for k, v in r.items() if k not in ("report", "inflight")}, incoherent=r.get("incoherent", 0)) for r in recs]
+    lines = [dict({k: v for k, v in r.items() if k not in ("report", "inflight")}, incoherent=r.get("incoherent", 0), hung=bool(r.get("hung", False))) for r in recs]
     vlib.write_ndjson(os.path.join(rd, "rt.ndjson"), lines)
     vlib.stage_specs(rd, ["TraceScan.tla"])
     # Verdicts: a reported race, or a wrong outcome (Run succeeding although a scanner failed, Close not returning).  That the
